@@ -18,7 +18,7 @@ from geff.validate.tracks import (
 )
 
 if TYPE_CHECKING:
-    from geff._typing import InMemoryGeff
+    from geff._typing import InMemoryGeff, PropDictNpArray
 
 
 class ValidationConfig(BaseModel):
@@ -27,6 +27,15 @@ class ValidationConfig(BaseModel):
     ellipsoid: bool = False
     lineage: bool = False
     tracklet: bool = False
+
+
+def _non_missing_values(prop: PropDictNpArray) -> np.ndarray:
+    """Values of a property restricted to the entries that are not flagged missing"""
+    values = prop["values"]
+    missing = prop["missing"]
+    if missing is not None:
+        values = values[np.logical_not(missing)]
+    return values
 
 
 def validate_data(memory_geff: InMemoryGeff, config: ValidationConfig) -> None:
@@ -63,11 +72,11 @@ def validate_data(memory_geff: InMemoryGeff, config: ValidationConfig) -> None:
             raise ValueError(f"Repeated edges found in data:\n{invalid_edges}")
 
     if config.sphere and meta.sphere is not None:
-        radius = memory_geff["node_props"][meta.sphere]["values"]
+        radius = _non_missing_values(memory_geff["node_props"][meta.sphere])
         validate_sphere(radius)
 
     if config.ellipsoid and meta.ellipsoid is not None:
-        covariance = memory_geff["node_props"][meta.ellipsoid]["values"]
+        covariance = _non_missing_values(memory_geff["node_props"][meta.ellipsoid])
         validate_ellipsoid(covariance, memory_geff["metadata"].axes)
 
     if meta.track_node_props is not None:
